@@ -68,7 +68,13 @@ def WF (s : St) : Prop :=
 
 /-! ### shutdown racing in-progress operations (micro-steps; DESIGN F9)
 
-One durable topic with one durable channel.  `acked` = publishes that returned success. -/
+One durable topic with one durable channel.  `acked` = publishes that returned success.
+Every step is one critical section / channel operation of the real code.  Three model parameters
+say which windows the tree protects by a lock (each is tied to the tree by a regenerated fact and a
+hook replay): `scanLock` (the timeout scans hold `exitMutex.RLock`; true on the tree), `ansLock`
+(REQ / TOUCH hold `exitMutex.RLock` from the in-flight pop to the re-insertion; fixes/F18), and
+`topicBarrier` (`Topic.exit` sets `exitFlag` under the topic write lock, `PutMessage` tests it and
+writes under the read lock; fixes/F17). -/
 
 structure RaceSt where
   topicExiting : Bool := false
@@ -79,29 +85,50 @@ structure RaceSt where
   chanDisk : List Nat := []
   chanClosed : Bool := false
   inflight : List Nat := []
+  deferred : List Nat := []
   acked : List Nat := []
-  /-- publisher goroutines between the exitFlag test and the queue write (`topic.put.afterExitCheck`) -/
+  /-- FINished by a consumer (the channel is no longer responsible for them) -/
+  finished : List Nat := []
+  /-- publisher goroutines between the exitFlag test and the queue write (`topic.put.afterExitCheck`);
+  they hold the topic read lock -/
   putPending : List Nat := []
   /-- consumer pumps between the queue receive and StartInFlightTimeout (`proto.pump.afterRecv`) -/
   pumpHolds : List Nat := []
-  /-- the timeout scan between `popInFlightMessage` and `put` (message in no container) -/
+  /-- the timeout scans between `popInFlightMessage`/`popDeferredMessage` and `put` (message in no container) -/
   scanHolds : List Nat := []
+  /-- REQ / TOUCH between `popInFlightMessage` and the re-insertion (`chan.req.afterPop`, `chan.touch.afterPop`) -/
+  ansHolds : List Nat := []
+  /-- ghost: messages a consumer pump registered in flight after the channel had been flushed and closed -/
+  lateReg : List Nat := []
+  /-- ghost: messages the topic pump has handed to the channel -/
+  fanned : List Nat := []
   /-- model parameter: the scan holds `exitMutex.RLock` across that window (true on the tree: tie
   `scan_holds_exit_lock`); `Channel.exit` then cannot run inside it -/
   scanLock : Bool := true
+  /-- model parameter: REQ and TOUCH hold `exitMutex.RLock` across their window (tie `answers_exit_lock_shape`) -/
+  ansLock : Bool := false
+  /-- model parameter: `Topic.exit` sets the flag under the topic write lock (tie `topic_exit_flag_shape`) -/
+  topicBarrier : Bool := false
   memCap : Nat := 4
 deriving Repr, DecidableEq
 
 inductive RaceStep where
-  | pubCheck (m : Nat)      -- Topic.PutMessage: exitFlag test
-  | pubSend (m : Nat)       -- … the queue write; returns nil → acknowledged
+  | pubCheck (m : Nat)      -- Topic.PutMessage: RLock, exitFlag test
+  | pubSend (m : Nat)       -- … the queue write, RUnlock; returns nil → acknowledged
   | fanout                  -- topic pump moves the head of the topic queue to the channel
   | pumpRecv                -- consumer pump receives the head of the channel's memory queue
+  | pumpRecvDisk            -- … or the head of the channel's disk queue (ReadChan)
   | pumpRegister (m : Nat)  -- … StartInFlightTimeout (then the send on the closed connection fails)
+  | fin (m : Nat)           -- FIN: out of the in-flight map for good
+  | ansTake (m : Nat)       -- REQ / TOUCH: popInFlightMessage
+  | reqPut (m : Nat)        -- … REQ 0: `Exiting()` ⇒ error (dropped), else back on the queue
+  | reqDefer (m : Nat)      -- … REQ > 0: into the deferred map
+  | touchPut (m : Nat)      -- … TOUCH: back into the in-flight map
   | scanTake (m : Nat)      -- processInFlightQueue: a timed-out message leaves the in-flight map
+  | scanTakeD (m : Nat)     -- processDeferredQueue: a due message leaves the deferred map
   | scanPut (m : Nat)       -- … and is put back on the queue ("exiting": dropped, when the channel has closed)
   | exitFlag                -- Topic.exit: exitFlag := 1, pump stopped
-  | exitChan                -- Channel.exit(false): flush memory + in-flight to disk, close backend
+  | exitChan                -- Channel.exit(false): flush memory + in-flight + deferred to disk, close backend
   | exitTopicFlush          -- Topic.flush + backend.Close
 deriving Repr, DecidableEq
 
@@ -122,18 +149,50 @@ def raceStep (s : RaceSt) : RaceStep → Option RaceSt
       match s.topicMem with
       | [] => none
       | m :: rest =>
-        if s.chanMem.length < s.memCap then some { s with topicMem := rest, chanMem := s.chanMem ++ [m] }
-        else some { s with topicMem := rest, chanDisk := s.chanDisk ++ [m] }
+        if s.chanMem.length < s.memCap then
+          some { s with topicMem := rest, chanMem := s.chanMem ++ [m], fanned := m :: s.fanned }
+        else some { s with topicMem := rest, chanDisk := s.chanDisk ++ [m], fanned := m :: s.fanned }
   | .pumpRecv =>
     match s.chanMem with
     | [] => none
     | m :: rest => some { s with chanMem := rest, pumpHolds := m :: s.pumpHolds }
+  | .pumpRecvDisk =>
+    if s.chanClosed then none                           -- the closed disk queue hands nothing out
+    else
+      match s.chanDisk with
+      | [] => none
+      | m :: rest => some { s with chanDisk := rest, pumpHolds := m :: s.pumpHolds }
   | .pumpRegister m =>
-    if m ∈ s.pumpHolds then some { s with inflight := m :: s.inflight, pumpHolds := s.pumpHolds.erase m }
+    if m ∈ s.pumpHolds then
+      some { s with inflight := m :: s.inflight, pumpHolds := s.pumpHolds.erase m,
+                    lateReg := if s.chanClosed then m :: s.lateReg else s.lateReg }
+    else none
+  | .fin m =>
+    if m ∈ s.inflight then some { s with inflight := s.inflight.erase m, finished := m :: s.finished }
+    else none
+  | .ansTake m =>
+    if m ∈ s.inflight then some { s with inflight := s.inflight.erase m, ansHolds := m :: s.ansHolds }
+    else none
+  | .reqPut m =>
+    if m ∈ s.ansHolds then
+      if s.chanClosed then some { s with ansHolds := s.ansHolds.erase m }         -- "exiting"
+      else if s.chanMem.length < s.memCap then
+        some { s with chanMem := s.chanMem ++ [m], ansHolds := s.ansHolds.erase m }
+      else some { s with chanDisk := s.chanDisk ++ [m], ansHolds := s.ansHolds.erase m }
+    else none
+  | .reqDefer m =>
+    if m ∈ s.ansHolds then some { s with deferred := m :: s.deferred, ansHolds := s.ansHolds.erase m }
+    else none
+  | .touchPut m =>
+    if m ∈ s.ansHolds then some { s with inflight := m :: s.inflight, ansHolds := s.ansHolds.erase m }
     else none
   | .scanTake m =>
     if s.chanClosed then none                           -- `Exiting()` is tested first
     else if m ∈ s.inflight then some { s with inflight := s.inflight.erase m, scanHolds := m :: s.scanHolds }
+    else none
+  | .scanTakeD m =>
+    if s.chanClosed then none
+    else if m ∈ s.deferred then some { s with deferred := s.deferred.erase m, scanHolds := m :: s.scanHolds }
     else none
   | .scanPut m =>
     if m ∈ s.scanHolds then
@@ -143,11 +202,14 @@ def raceStep (s : RaceSt) : RaceStep → Option RaceSt
       else some { s with chanDisk := s.chanDisk ++ [m], scanHolds := s.scanHolds.erase m }
     else none
   | .exitFlag =>
-    if s.topicExiting then none else some { s with topicExiting := true }
+    if s.topicExiting then none
+    else if s.topicBarrier && !s.putPending.isEmpty then none   -- t.Lock() waits for the publishers' read locks
+    else some { s with topicExiting := true }
   | .exitChan =>
     if s.scanLock && !s.scanHolds.isEmpty then none     -- exitMutex: exit waits for the scan
+    else if s.ansLock && !s.ansHolds.isEmpty then none  -- … and for REQ / TOUCH
     else if s.topicExiting && !s.chanClosed then
-      some { s with chanDisk := s.chanDisk ++ s.chanMem ++ s.inflight, chanMem := [], chanClosed := true }
+      some { s with chanDisk := s.chanDisk ++ s.chanMem ++ s.inflight ++ s.deferred, chanMem := [], chanClosed := true }
     else none
   | .exitTopicFlush =>
     if s.chanClosed && !s.topicClosed then
@@ -162,11 +224,14 @@ def raceRun : RaceSt → List RaceStep → Option RaceSt
     | some s' => raceRun s' as
 
 /-- after the shutdown has completed and every goroutine has run to its end: every acknowledged
-message is on one of the two disk queues -/
+message that was not FINished is on one of the two disk queues -/
 def allAckedOnDisk (s : RaceSt) : Bool :=
-  s.acked.all (fun m => s.topicDisk.contains m || s.chanDisk.contains m)
+  s.acked.all (fun m => s.topicDisk.contains m || s.chanDisk.contains m || s.finished.contains m)
 
 def raceDone (s : RaceSt) : Bool :=
-  s.topicClosed && s.putPending.isEmpty && s.pumpHolds.isEmpty && s.scanHolds.isEmpty
+  s.topicClosed && s.putPending.isEmpty && s.pumpHolds.isEmpty && s.scanHolds.isEmpty && s.ansHolds.isEmpty
+
+/-- the tree with fixes/F17 (topic exit barrier) and fixes/F18 (answers hold the exit lock) -/
+def fixedTree : RaceSt := { ansLock := true, topicBarrier := true }
 
 end Nsq.Model.Restart
